@@ -32,6 +32,8 @@ _CNT = {}
 
 def reduce_genexp(lib, ex, name, node, st):
     ge = node.args[0]
+    if name in ("any", "all") and len(ge.generators) == 1 and isinstance(ge.generators[0].target, ast.Name):
+        return any_all(lib, ex, name, ge, node, st)
     if name == "sum" and len(ge.generators) == 1 and ge.generators[0].ifs and isinstance(ge.elt, ast.Constant) \
             and ge.elt.value == 1 and isinstance(ge.generators[0].target, ast.Name):
         return count_if(lib, ex, ge, node, st)
@@ -58,6 +60,42 @@ def reduce_genexp(lib, ex, name, node, st):
                 s2.assume(c + c0 <= lst.len)
         prev.append((key, c, lst.len))
         outs.append((Num(c), s2))
+    return outs
+
+
+def any_all(lib, ex, name, ge, node, st):
+    """any(<test> for x in L [if c])  /  all(...): decided by forking (a witness position, or a universal fact)"""
+    from pyvc.execute import feasible
+    g = ge.generators[0]
+    var = g.target.id
+    outs = []
+    for it, s in ex.eval(g.iter, st):
+        if isinstance(it, Exc):
+            outs.append((it, s))
+            continue
+        lst = ex.deref(it, s)
+        if isinstance(lst, VOpt):
+            lst = lst.val
+        if not isinstance(lst, SList):
+            raise Unsupported("%s over %r" % (name, lst))
+
+        def test_at(i, s=s, lst=lst):
+            s2 = s.fork()
+            s2.loc[var] = lst.at(i)
+            conds = [V.truth(ex.eval_pure(c, s2, node.lineno)) for c in g.ifs]
+            t = V.truth(ex.eval_pure(ge.elt, s2, node.lineno))
+            if name == "any":
+                return z3.And(*(conds + [t]))
+            return z3.And(*(conds + [z3.Not(t)]))      # a counterexample to all()
+        p = logic.fresh_idx("wit")
+        s1 = s.fork()
+        s1.assume(z3.And(0 <= p, p < lst.len, test_at(p)))
+        if feasible(s1, ex.ctx):
+            outs.append((VBool(name == "any"), s1))
+        s2 = s.fork()
+        s2.assume(Forall(1, lambda j: z3.Implies(z3.And(0 <= j, j < lst.len), z3.Not(test_at(j))), [lst.len], "none"))
+        if feasible(s2, ex.ctx):
+            outs.append((VBool(name != "any"), s2))
     return outs
 
 
